@@ -318,8 +318,10 @@ def oracle_bin(op, a, b):
         if not nonzero(b):
             if exact:      # F9 (owned by C06): today a panic, to become a raised error
                 return exp("err")
+            # the statement: the result "equals the operation carried out at that level on the converted operands";
+            # at the float/complex level a zero divisor gives NaN, whatever the level the zero itself came from
             r = at_level(L, None, None, frem, crem, a, b)
-            return exp([ok(r), "err"])
+            return exp(ok(r))
         tr = lambda x, y: x - y * qtrunc(Fraction(x) / Fraction(y))
         return exp(ok(at_level(L, tr, tr, frem, crem, a, b)))
     if op in ("divfloor", "modfloor"):
